@@ -89,3 +89,174 @@ Proof.
   all: crush2 H ltac:(eauto).
 Qed.
 End Frame2.
+
+(* ---------- a step of the optimised resolver sets only the flag of its own item ---------- *)
+Section Flags2.
+Variable m : Symbols.mgr.
+Variable banks : list Cursor.bank.
+Variable defs : list ruledef.
+Variable mb : Z.
+Variable K : kinfo.
+Variables opt first last : bool.
+
+Lemma nodeS2_flags n c x b pos x' r : resolve_nodeS2 m defs mb K opt first last n c x b pos = Ok (x', r) ->
+  (forall s, ~ In s (sref (n, c)) -> flag (fz_sym x') s = flag (fz_sym x) s) /\
+  (forall i, ~ In i (iref (n, c)) -> flag (fz_instr x') i = flag (fz_instr x) i) /\
+  (forall d, ~ In d (dref (n, c)) -> flag (fz_data x') d = flag (fz_data x) d).
+Proof.
+  intro H.
+  assert (Same : x' = x \/ (exists st', x' = with_state x st') ->
+            (forall s, ~ In s (sref (n, c)) -> flag (fz_sym x') s = flag (fz_sym x) s) /\
+            (forall i, ~ In i (iref (n, c)) -> flag (fz_instr x') i = flag (fz_instr x) i) /\
+            (forall d, ~ In d (dref (n, c)) -> flag (fz_data x') d = flag (fz_data x) d)).
+  { intros [->|[st' ->]]; auto. }
+  assert (Plain : forall st0, (match resolve_node2 m defs mb last n c st0 b pos with
+                    | Err => Err | Panic => Panic | Ok (st', res) => Ok (with_state x st', res) end) = Ok (x', r) ->
+                    exists st', x' = with_state x st').
+  { intros st0 H0. destruct (resolve_node2 m defs mb last n c st0 b pos) as [[st' r0]| |]; try discriminate. inversion H0; eauto. }
+  destruct n as [s d0|s d0 e|i src|width d e|k e|k e|k e|bi|e]; cbn [resolve_nodeS2] in H; cbn [sref iref dref fst];
+    try (apply Same; right; eapply Plain; eauto; fail).
+  - destruct (flag (fz_sym x) s); [inversion H; subst; apply Same; now left|].
+    destruct (resolve_node2 m defs mb last (XConst s d0 e) c (ss x) b pos) as [[st' r0]| |]; try discriminate.
+    destruct (opt && first && flag (k_sym K) s); inversion H; subst; [|apply Same; right; eauto].
+    cbn [fz_sym fz_instr fz_data]. split; [|auto]. intros s0 Hs0. apply flag_set_other. intro; subst. apply Hs0. now left.
+  - destruct (nth_error (s_instr (ss x)) i) as [d|]; [|discriminate].
+    destruct (flag (fz_instr x) i); [inversion H; subst; apply Same; now left|].
+    destruct (smallest_encodings defs _ _ (i_matches d)) as [encs|]; [|discriminate]. cbv zeta in H.
+    match type of H with (if ?q then _ else _) = _ => destruct q end; inversion H; subst; [|apply Same; right; eauto].
+    cbn [fz_sym fz_instr fz_data]. split; [auto|]. split; [|auto]. intros i0 Hi0. apply flag_set_other. intro; subst. apply Hi0. now left.
+  - destruct (flag (fz_data x) d); [inversion H; subst; apply Same; now left|]. cbv zeta in H.
+    destruct (eval code_ops _ e []) as [[v c1]|]; [|discriminate].
+    destruct (expect_error_or_bigint v) as [v'|]; [|discriminate].
+    match type of H with match ?q with _ => _ end = _ => destruct q as [menc|]; [|discriminate] end.
+    match type of H with (if negb ?q then _ else _) = _ => destruct q; cbn [negb] in H; [|discriminate] end.
+    match type of H with (if ?q then _ else _) = _ => destruct q end; inversion H; subst; [|apply Same; right; eauto].
+    cbn [fz_sym fz_instr fz_data]. split; [auto|]. split; [auto|]. intros d1 Hd1. apply flag_set_other. intro; subst. apply Hd1. now left.
+Qed.
+
+Lemma pass2S_flags : forall l x c prev acc x' r,
+  pass2S m banks defs mb K opt first last l x c prev acc = Ok (x', r) ->
+  (forall s, ~ In s (flat_map sref l) -> flag (fz_sym x') s = flag (fz_sym x) s) /\
+  (forall i, ~ In i (flat_map iref l) -> flag (fz_instr x') i = flag (fz_instr x) i) /\
+  (forall d, ~ In d (flat_map dref l) -> flag (fz_data x') d = flag (fz_data x) d).
+Proof.
+  induction l as [|[n cn] l IH]; intros x c prev acc x' r H; cbn [pass2S] in H.
+  - destruct (Cursor.advance mb banks c prev); try discriminate. inversion H; subst. auto.
+  - unfold step2S in H. cbn [fst snd] in H.
+    destruct (Cursor.advance mb banks c prev) as [c1| |]; try discriminate.
+    destruct (Cursor.enter mb banks c1 (shape n)) as [c2| |]; try discriminate.
+    destruct (Cursor.cur_bank banks c2) as [[b pos]| |]; try discriminate.
+    destruct (resolve_nodeS2 m defs mb K opt first last n cn x b pos) as [[x1 r1]| |] eqn:E; try discriminate.
+    destruct (nodeS2_flags _ _ _ _ _ _ _ E) as (A1 & A2 & A3). destruct (IH _ _ _ _ _ _ H) as (B1 & B2 & B3).
+    cbn [flat_map]. repeat split; intros j Hj; [rewrite B1, A1|rewrite B2, A2|rewrite B3, A3]; auto; intro; apply Hj; apply in_or_app; auto.
+Qed.
+End Flags2.
+
+Lemma pass2_frame m banks defs mb last : forall l st c prev acc st' r,
+  pass2 m banks defs mb last l st c prev acc = Ok (st', r) ->
+  (forall i, ~ In i (flat_map iref l) -> nth_error (s_instr st') i = nth_error (s_instr st) i) /\
+  (forall d, ~ In d (flat_map dref l) -> nth_error (s_data st') d = nth_error (s_data st) d) /\
+  length (s_data st') = length (s_data st).
+Proof.
+  induction l as [|[n cn] l IH]; intros st c prev acc st' r H; cbn [pass2] in H.
+  - destruct (Cursor.advance mb banks c prev); try discriminate. inversion H; subst. auto.
+  - unfold step2 in H. cbn [fst snd] in H.
+    destruct (Cursor.advance mb banks c prev) as [c1| |]; try discriminate.
+    destruct (Cursor.enter mb banks c1 (shape n)) as [c2| |]; try discriminate.
+    destruct (Cursor.cur_bank banks c2) as [[b pos]| |]; try discriminate.
+    destruct (resolve_node2 m defs mb last n cn st b pos) as [[st1 r1]| |] eqn:E; try discriminate.
+    destruct (node2_frame _ _ _ _ _ _ _ _ _ _ _ E) as (A1 & A2 & A3). destruct (IH _ _ _ _ _ _ H) as (B1 & B2 & B3).
+    cbn [flat_map]. split; [|split; [|congruence]]; intros j Hj; [rewrite B1, A1|rewrite B2, A2]; auto; intro; apply Hj; apply in_or_app; auto.
+Qed.
+
+Section Replay2.
+Variable m : Symbols.mgr.
+Variable banks : list Cursor.bank.
+Variable defs : list ruledef.
+Variable mb : Z.
+Variable ns : list cnode.
+Variable K : kinfo.
+Hypothesis Hres : reserved_free2 m.
+Hypothesis HKsym : forall r, nth_error (k_sym K) r = Some true -> exists d0 e c, In (XConst r d0 e, c) ns /\ const_known e = true.
+Hypothesis Hok : forall w d e c, In (XData w d e, c) ns -> data_known e = true -> elem_strict_ok w e = true.
+Hypothesis HKdata : forall w d e c, In (XData w d e, c) ns -> flag (k_data K) d = true -> data_known e = true.
+Hypothesis Hcanon : canonical2 ns.
+Hypothesis Hdist : syms_distinct2 ns.
+Variables first md : bool.
+
+Let Hcan : true = true -> canonical2 ns := fun _ => Hcanon.
+Notation INV := (Inv2 m defs mb ns K true).
+Notation NS n c x b pos := (resolve_nodeS2 m defs mb K true first md n c x b pos).
+Notation NF n c st b pos := (resolve_node2 m defs mb md n c st b pos).
+
+Lemma node_T_to_F2 n c x b pos x' rT : In (n, c) ns -> INV x -> NS n c x b pos = Ok (x', rT) ->
+  exists rF, NF n c (ss x) b pos = Ok (ss x', rF) /\ le_res rF rT /\ INV x' /\ sub_flags x x'.
+Proof.
+  intros Hin HI HT.
+  pose proof (node_sim2 m defs mb ns K Hres HKsym true Hok HKdata Hcan md first n c x b pos Hin HI) as H.
+  destruct (NF n c (ss x) b pos) as [[st' rF]| |]; try (rewrite H in HT; discriminate).
+  destruct H as (x'' & rT'' & HT' & Hss & Hr & _ & HI' & Hsub). rewrite HT' in HT. inversion HT; subst. exists rF. auto.
+Qed.
+
+Lemma pass_T_to_F2 l x c prev accF accT x' rT : incl l ns -> INV x -> le_res accF accT ->
+  pass2S m banks defs mb K true first md l x c prev accT = Ok (x', rT) ->
+  exists rF, pass2 m banks defs mb md l (ss x) c prev accF = Ok (ss x', rF) /\ le_res rF rT /\ INV x' /\ sub_flags x x'.
+Proof.
+  intros Hincl HI Hle HT.
+  pose proof (pass_sim2 m banks defs mb ns K Hres HKsym true Hok HKdata Hcan md first l Hincl x c prev accF accT HI Hle) as H.
+  destruct (pass2 m banks defs mb md l (ss x) c prev accF) as [[st' rF]| |]; try (rewrite H in HT; discriminate).
+  destruct H as (x'' & rT'' & HT' & Hss & Hr & _ & HI' & Hsub). rewrite HT' in HT. inversion HT; subst. exists rF. auto.
+Qed.
+
+Definition frozen_at2 (n : xnode) (x' : sstate) : Prop :=
+  match n with
+  | XConst s _ _ => flag (fz_sym x') s = true
+  | XInstr i _ => flag (fz_instr x') i = true
+  | XData _ d _ => flag (fz_data x') d = true
+  | _ => False
+  end.
+
+Lemma node_outcome2 n c x b pos x' rT st' rF : In (n, c) ns -> INV x ->
+  (forall d, In d (dref (n, c)) -> (d < length (s_data (ss x)))%nat) ->
+  NS n c x b pos = Ok (x', rT) -> NF n c (ss x) b pos = Ok (st', rF) ->
+  (rT = rF /\ x' = with_state x st') \/ frozen_at2 n x'.
+Proof.
+  intros Hin HI Hrange HT HF. pose proof HI as (I1 & I2 & I3 & I4 & L1 & L2 & L3).
+  destruct n as [s d0|s d0 e|i src|width d e|k e|k e|k e|bi|e]; cbn [resolve_nodeS2] in HT;
+    try (rewrite HF in HT; inversion HT; subst; left; auto; fail).
+  - destruct (flag (fz_sym x) s) eqn:Fs; [inversion HT; subst; right; exact Fs|].
+    rewrite HF in HT. destruct (true && first && flag (k_sym K) s) eqn:C; inversion HT; subst; [|left; auto].
+    right. cbn [frozen_at2 fz_sym]. apply flag_set_in_range. rewrite L1.
+    apply andb_prop in C. destruct C as [_ Ck]. unfold flag in Ck.
+    destruct (nth_error (k_sym K) s) as [bb|] eqn:Kb; [subst bb|discriminate].
+    destruct (HKsym s Kb) as (d0' & e' & c' & Hin' & Hk').
+    destruct (proj1 (I1 eq_refl) s d0' e' c' Hin' Hk') as (v & c1 & _ & Hs & _).
+    apply nth_error_Some. congruence.
+  - unfold resolve_node2 in HF. cbv zeta in HF. destruct (nth_error (s_instr (ss x)) i) as [d|] eqn:Hd; [|discriminate].
+    destruct (flag (fz_instr x) i) eqn:Fi; [inversion HT; subst; right; exact Fi|].
+    rewrite resolve_encoding_smallest in HF.
+    destruct (smallest_encodings defs _ _ (i_matches d)) as [encs|]; [|discriminate]. cbv zeta in HT.
+    match type of HT with (if ?q then _ else _) = _ => destruct q end; inversion HT; subst.
+    + right. cbn [frozen_at2 fz_instr]. apply flag_set_in_range. rewrite L2. apply nth_error_Some. congruence.
+    + left. destruct encs as [cc|]; inversion HF; subst; auto.
+  - destruct (flag (fz_data x) d) eqn:Fd; [inversion HT; subst; right; exact Fd|].
+    unfold resolve_node2 in HF. cbv zeta in HF, HT.
+    destruct (eval code_ops _ e []) as [[v c1]|]; [|discriminate].
+    destruct (expect_error_or_bigint v) as [v'|]; [|discriminate].
+    destruct (flag (k_data K) d) eqn:Kd.
+    + rewrite orb_true_r in HT.
+      match type of HT with match ?q with _ => _ end = _ => destruct q as [menc|] eqn:Em; [|discriminate] end.
+      match type of HT with (if negb ?q then _ else _) = _ => destruct q; cbn [negb] in HT; [|discriminate] end.
+      match type of HT with (if ?q then _ else _) = _ => destruct q eqn:Fz end; inversion HT; subst.
+      * right. cbn [frozen_at2 fz_data]. apply flag_set_in_range. rewrite L3. apply Hrange. cbn. now left.
+      * left. destruct v'; try discriminate Em. inversion Em; subst menc.
+        match type of HF with (if negb ?q then _ else _) = _ => destruct q; cbn [negb] in HF; [|discriminate] end.
+        inversion HF; subst. auto.
+    + rewrite orb_false_r in HT.
+      match type of HT with match ?q with _ => _ end = _ => destruct q as [menc|]; [|discriminate] end.
+      match type of HT with (if negb ?q then _ else _) = _ => destruct q; cbn [negb] in HT, HF; [|discriminate] end.
+      assert (Efr : match menc with Some bb => true && first && false && match bsz (match width with Some w => slice_to bb (Z.of_N w) | None => slice_to bb (size_or_min bb) end) with Some _ => true | None => false end | None => false end = false)
+        by (destruct menc; [rewrite !andb_false_r|]; reflexivity).
+      left. destruct menc as [bb|]; [rewrite !andb_false_r in HT; cbn [andb] in HT|]; inversion HT; inversion HF; subst; auto.
+Qed.
+End Replay2.
